@@ -2,6 +2,7 @@
 
   ./check selftest mutants [-j N] [name-substring ...]
   ./check selftest seeded  [-j N] [name-substring ...]
+  ./check selftest benign  [-j N]                      behaviour-preserving refactors: all twenty checks must stay silent
   ./check selftest apply <patch> <PROP> [PROP...]     run checks against one patch, print output
 
 Each patch is applied to a scratch copy of H2_SRC outside /repo and /verif
@@ -79,6 +80,8 @@ def replay(kind, argv):
         argv = argv[:i] + argv[i + 2:]
     if kind == 'mutants':
         patches = sorted(glob.glob(os.path.join(VERIF, 'selftest', 'mutants', '*.patch')))
+    elif kind == 'benign':
+        patches = sorted(glob.glob(os.path.join(VERIF, 'selftest', 'benign', '*.diff')))
     else:
         patches = sorted(glob.glob(os.path.join(VERIF, 'seeded', '*', 'patch.diff')))
     if argv:
@@ -94,6 +97,8 @@ def replay(kind, argv):
         i, p = i_p
         if kind == 'mutants':
             meta = parse_header(p)
+        elif kind == 'benign':
+            meta = {'property': ['C%02d' % k for k in range(1, 21)], 'expect': [], 'also-ok': []}
         else:
             mj = json.load(open(os.path.join(os.path.dirname(p), 'meta.json')))
             allp = ['C%02d' % k for k in range(1, 21)]
@@ -108,7 +113,12 @@ def replay(kind, argv):
 
     with concurrent.futures.ThreadPoolExecutor(max_workers=jobs) as ex:
         for p, meta, res in ex.map(one, list(enumerate(patches))):
-            name = os.path.basename(p) if kind == 'mutants' else os.path.basename(os.path.dirname(p))
+            name = os.path.basename(p) if kind in ('mutants', 'benign') else os.path.basename(os.path.dirname(p))
+            if kind == 'benign' and 'error' not in res:
+                noisy = [pr for pr in res if res[pr]['rc'] != 0]
+                results[name] = 'SILENT' if not noisy else 'FALSE-ALARM'
+                print('%-60s %-12s %s' % (name, results[name], '; '.join('%s: %s' % (pr, ', '.join(k[:90] for k in res[pr]['keys'][:3])) for pr in noisy)))
+                continue
             if 'error' in res:
                 print('%-50s ERROR %s' % (name, res['error']))
                 results[name] = 'error'
@@ -127,8 +137,8 @@ def replay(kind, argv):
             for pr in novd:
                 print(res[pr]['out'][-1500:])
     n = len(results)
-    d = sum(1 for v in results.values() if v == 'DETECTED')
-    print('%s: %d/%d detected' % (kind, d, n))
+    d = sum(1 for v in results.values() if v in ('DETECTED', 'SILENT'))
+    print('%s: %d/%d %s' % (kind, d, n, 'silent' if kind == 'benign' else 'detected'))
     os.makedirs(os.path.join(VERIF, 'out', 'selftest'), exist_ok=True)
     with open(os.path.join(VERIF, 'out', 'selftest', kind + '.json'), 'w') as fh:
         json.dump(results, fh, indent=1)
@@ -141,7 +151,7 @@ def main(argv):
     if not argv:
         print(__doc__)
         return 2
-    if argv[0] in ('mutants', 'seeded'):
+    if argv[0] in ('mutants', 'seeded', 'benign'):
         return replay(argv[0], argv[1:])
     if argv[0] == 'apply':
         res = run_patch(argv[1], argv[2:], 'a', keep_output=True)
